@@ -32,6 +32,11 @@ fn ascii_text(extra: Vec<String>) -> BoxedStrategy<String> {
 impl Prop for C01 {
     type Case = Case;
     const ID: &'static str = "C01";
+    const FUZZ_TARGET: Option<&'static str> = Some("bytechar_tok");
+    const FUZZ_RUNS: u64 = 1000000;
+    fn fuzz_decode(bytes: &[u8]) -> Option<Case> {
+        crate::fuzzdec::c01(bytes)
+    }
     const RULE: &'static str = "Unicode text from fragment pools (multi-byte, combining sequences, CRLF, ZWJ emoji, hazards) mixed with the case's own special-token spellings and look-alikes ('<pad', 'pad>', doubled, nested, upper-cased, adjacent to multi-byte characters) x byte tokenizer configs (graphemes, byte/code-point groups, pad_to_multiple_of, aggregation) or char tokenizer configs (graphemes, unk inside/outside the token list) x special configs (extra tokens, duplicates, prefix/suffix) x ignore_special_tokens; oracle: independent leftmost special-token scanner + UTF-8 bytes, round trip. Non-trivial: the text contains a multi-byte character and (a special spelling/look-alike, or a non-empty prefix/suffix list). Distinct = distinct serialised case.";
     const ESSENTIAL: &'static [&'static str] = &["byte", "char", "special_in_text", "special_adjacent_multibyte", "prefix_suffix", "parsing_off", "char_over_alphabet", "multi_cp_cluster"];
 
